@@ -26,13 +26,14 @@ let run line =
   let lay = (match List.map n_of_string (String.split_on_char ':' (get "lay")) with
       | [h; r; t] -> { l_hdr = h; l_recs = r; l_total = t } | _ -> failwith "bad layout") in
   let st = (match get "st" with
-      | "missing" -> FMissing | "empty" -> FPrefix N0 | "complete" -> FComplete
+      | "missing" -> FMissing | "empty" -> FPrefix N0 | "complete" | "emptydir" -> FComplete
       | s -> FPrefix (n_of_string (String.sub s 1 (String.length s - 1)))) in
   let g = { s_recs = recs; s_idx = hydrate_from recs O } in
   let full = { l_hdr = n_of_int 20; l_recs = n_of_int 20; l_total = n_of_int 20 } in
   let f = (match get "file" with
       | "e" -> { f_le = lay; f_e = st; f_lp = full; f_p = FComplete; f_ls = full; f_s = FComplete }
       | "p" -> { f_le = full; f_e = FComplete; f_lp = lay; f_p = st; f_ls = full; f_s = FComplete }
+      | "d" -> { f_le = full; f_e = FComplete; f_lp = full; f_p = FComplete; f_ls = full; f_s = FComplete }   (* an empty next segment directory: no index file is touched *)
       | _ -> { f_le = full; f_e = FComplete; f_lp = full; f_p = FComplete; f_ls = lay; f_s = st }) in
   let r = open_sealed g f in
   let evs = seg_committed recs in
